@@ -8,17 +8,29 @@ out = tempfile.mktemp(suffix=".xml", dir="/var/tmp")
 cmd = ["/venv/bin/python", "-m", "pytest", "-ra", "-q", "-p", "no:cacheprovider", "--timeout=900",
        "--continue-on-collection-errors", "-n", "12", f"--junitxml={out}", *paths]
 env = dict(os.environ, PYTHONPATH=root)
+# test_interrupt sends SIGINT to "the main thread"; under xdist and load the test may run in another
+# thread and then hangs until the timeout: run it alone, without xdist
+INTR = "dask/tests/test_threaded.py::test_interrupt"
+cmd += ["--deselect", INTR]
 p = subprocess.run(cmd, cwd=root, env=env, capture_output=True, text=True)
 print(p.stdout.strip().splitlines()[-1] if p.stdout.strip() else p.stderr[-500:])
 b = json.load(open("/root/.vp/BASELINE.json"))
 res = {}
-for tc in ET.parse(out).iter("testcase"):
-    st = "pass"
-    for ch in tc:
-        if ch.tag in ("failure", "error"): st = "fail"
-        elif ch.tag == "skipped": st = "skip"
-    res[tc.get("classname") + "::" + tc.get("name")] = st
-os.unlink(out)
+def absorb(path):
+    for tc in ET.parse(path).iter("testcase"):
+        st = "pass"
+        for ch in tc:
+            if ch.tag in ("failure", "error"): st = "fail"
+            elif ch.tag == "skipped": st = "skip"
+        res[tc.get("classname") + "::" + tc.get("name")] = st
+    os.unlink(path)
+absorb(out)
+if not paths or any(x.startswith(("dask/tests", "dask")) and "test_threaded" in x or x in ("dask", "dask/tests") for x in paths):
+    out2 = tempfile.mktemp(suffix=".xml", dir="/var/tmp")
+    subprocess.run(["/venv/bin/python", "-m", "pytest", "-q", "-p", "no:cacheprovider", "--timeout=120", f"--junitxml={out2}", INTR],
+                   cwd=root, env=env, capture_output=True, text=True)
+    if os.path.exists(out2):
+        absorb(out2)
 sp = set(b["stable_pass"])
 if paths:
     sp = {n for n in sp if n in res}
